@@ -93,6 +93,29 @@ fn do_call<F: Flavour>(nodes: &[F::Node], c: Call) -> Ret {
     }
 }
 
+/// read-only accessors, individually addressable (lock-discipline pass, focused stress)
+pub fn accessors<F: Flavour>() -> Vec<(&'static str, fn(&[F::Node], usize))> {
+    vec![
+        ("out_degree/degree", |n, u| { let _ = F::out_degree(&n[u]); }),
+        ("in_degree", |n, u| { let _ = F::in_degree(&n[u]); }),
+        ("is_orphan", |n, u| { let _ = F::is_orphan(&n[u]); }),
+        ("is_root", |n, u| { let _ = F::is_root(&n[u]); }),
+        ("is_leaf", |n, u| { let _ = F::is_leaf(&n[u]); }),
+        ("sizeof", |n, u| { let _ = F::node_sizeof(&n[u]); }),
+        ("is_connected", |n, u| { for k in 0..n.len() { let _ = F::is_connected(&n[u], k as Key); } }),
+        ("find_outbound/find_adjacent", |n, u| { for k in 0..n.len() { let _ = F::find_out(&n[u], k as Key); } }),
+        ("find_inbound", |n, u| { for k in 0..n.len() { let _ = F::find_in(&n[u], k as Key); } }),
+        ("iter_out/iter", |n, u| { let _ = F::edges(&n[u], IterKind::Out).len(); }),
+        ("iter_in", |n, u| { let _ = F::edges(&n[u], IterKind::In).len(); }),
+        ("for-loop", |n, u| { let _ = F::edges(&n[u], IterKind::IntoIter).len(); }),
+        ("bfs", |n, u| { let _ = F::search(&n[u], &SearchCfg { algo: Algo::Bfs, transposed: false, term: Term::Search, target: Some(250) }, Meth::None); }),
+        ("dfs", |n, u| { let _ = F::search(&n[u], &SearchCfg { algo: Algo::Dfs, transposed: F::DIRECTED, term: Term::Path, target: Some(250) }, Meth::None); }),
+        ("pfs", |n, u| { let _ = F::search(&n[u], &SearchCfg { algo: Algo::PfsMin, transposed: false, term: Term::Cycle, target: None }, Meth::None); }),
+        ("preorder", |n, u| { let _ = F::order(&n[u], &OrderCfg { ord: Ordk::Pre, transposed: false, term: OTerm::Nodes }, Meth::None); }),
+        ("postorder", |n, u| { let _ = F::order(&n[u], &OrderCfg { ord: Ordk::Post, transposed: F::DIRECTED, term: OTerm::Edges }, Meth::None); }),
+    ]
+}
+
 /// the wider bundles used by the free-running tier and the lock-discipline pass
 fn do_call_wide<F: Flavour>(nodes: &[F::Node], c: Call) -> Ret {
     match c {
@@ -690,10 +713,10 @@ fn scenario_key(sc: &Scenario) -> String {
 
 /// Runs the free-running tier in a child process (a stalled run can never be
 /// joined, so the child is killed): `gv C17-free <flavour> <reader idx> <iters>`.
-pub fn free_child(flavour: &str, idx: usize, iters: u64) -> i32 {
+pub fn free_child(flavour: &str, idx: usize, iters: u64, focus: Option<&str>) -> i32 {
     let shapes = free_shapes();
     let (reader, writer) = shapes[idx % shapes.len()];
-    let r = if flavour == SDi::NAME { free_run_noscope::<SDi>(reader, writer, iters) } else { free_run_noscope::<SUn>(reader, writer, iters) };
+    let r = if flavour == SDi::NAME { free_run_noscope::<SDi>(reader, writer, iters, focus) } else { free_run_noscope::<SUn>(reader, writer, iters, focus) };
     match r {
         Ok(n) => {
             println!("FREE-OK {}", n);
@@ -711,10 +734,11 @@ pub fn free_child(flavour: &str, idx: usize, iters: u64) -> i32 {
 }
 
 /// like free_run but with detached threads so that the process can exit while they are blocked
-fn free_run_noscope<F: Flavour>(reader: Call, writer: (Call, Call), iters: u64) -> Result<u64, String>
+fn free_run_noscope<F: Flavour>(reader: Call, writer: (Call, Call), iters: u64, focus: Option<&str>) -> Result<u64, String>
 where
     F::Node: Send + Sync + 'static,
 {
+    let focus_fn: Option<fn(&[F::Node], usize)> = focus.and_then(|name| accessors::<F>().into_iter().find(|a| a.0 == name).map(|a| a.1));
     let nodes: Arc<Vec<F::Node>> = Arc::new((0..3).map(|i| F::new_node(i as Key, NVal::plain(i as i32))).collect());
     F::connect(&nodes[1], &nodes[2], 9);
     let progress = Arc::new([AtomicU64::new(0), AtomicU64::new(0)]);
@@ -726,7 +750,12 @@ where
             let r = catch_unwind(AssertUnwindSafe(|| {
                 for _ in 0..iters {
                     if who == 0 {
-                        do_call_wide::<F>(&nodes, reader);
+                        match focus_fn {
+                            Some(f) => f(&nodes, reader.operands()[0] as usize),
+                            None => {
+                                do_call_wide::<F>(&nodes, reader);
+                            }
+                        }
                     } else {
                         do_call::<F>(&nodes, writer.0);
                         do_call::<F>(&nodes, writer.1);
@@ -780,12 +809,12 @@ pub fn free_shapes() -> Vec<(Call, (Call, Call))> {
 /// a Read acquisition while the lock is already held by this (only) thread is
 /// a re-entrant read, which std::sync::RwLock may dead-lock when a writer is
 /// queued in between. Returns the call shapes that do it.
-pub fn reentrant_reads<F: Flavour>() -> Vec<(Call, String)> {
+pub fn reentrant_reads<F: Flavour>() -> Vec<(&'static str, String)> {
     use std::cell::RefCell;
     thread_local! { static HITS: RefCell<Vec<String>> = const { RefCell::new(Vec::new()) }; }
-    let mut found = vec![];
-    for init in inits() {
-        for c in call_shapes(3) {
+    let mut found: Vec<(&'static str, String)> = vec![];
+    let mut probe = |name: &'static str, f: &dyn Fn(&[F::Node])| {
+        for init in inits() {
             let nodes: Vec<F::Node> = (0..3).map(|i| F::new_node(i as Key, NVal::plain(i as i32))).collect();
             for &(u, v, e) in &init {
                 F::connect(&nodes[u as usize], &nodes[v as usize], e);
@@ -797,15 +826,25 @@ pub fn reentrant_reads<F: Flavour>() -> Vec<(Call, String)> {
                     HITS.with(|h| h.borrow_mut().push("read lock requested while this thread already holds a guard of the same lock".into()));
                 }
             })));
-            let _ = catch_unwind(AssertUnwindSafe(|| do_call_wide::<F>(&nodes, c)));
+            let _ = catch_unwind(AssertUnwindSafe(|| f(&nodes)));
             verif_hooks::install(None);
             let hits = HITS.with(|h| h.borrow().clone());
             if let Some(h) = hits.first() {
-                if !found.iter().any(|(fc, _): &(Call, String)| fc.name() == c.name()) {
-                    found.push((c, h.clone()));
+                if !found.iter().any(|x| x.0 == name) {
+                    found.push((name, h.clone()));
                 }
             }
         }
+    };
+    for (name, f) in accessors::<F>() {
+        for u in 0..3usize {
+            probe(name, &|n| f(n, u));
+        }
+    }
+    for c in call_shapes(3).into_iter().filter(|c| c.mutates()) {
+        probe(c.name(), &|n| {
+            do_call::<F>(n, c);
+        });
     }
     found
 }
@@ -988,9 +1027,13 @@ pub fn run(ctx: &mut Ctx) {
 
     // ---- (c1) lock discipline: re-entrant reads, confirmed by the free-running tier
     let exe = std::env::current_exe().ok();
-    let run_child = |fl: &str, idx: usize, iters: u64| -> Option<i32> {
+    let run_child = |fl: &str, idx: usize, iters: u64, focus: Option<&str>| -> Option<i32> {
         let exe = exe.as_ref()?;
-        let mut child = std::process::Command::new(exe).args(["C17-free", fl, &idx.to_string(), &iters.to_string()]).stdout(std::process::Stdio::null()).spawn().ok()?;
+        let mut args: Vec<String> = vec!["C17-free".into(), fl.into(), idx.to_string(), iters.to_string()];
+        if let Some(f) = focus {
+            args.push(f.into());
+        }
+        let mut child = std::process::Command::new(exe).args(&args).stdout(std::process::Stdio::null()).spawn().ok()?;
         let t0 = Instant::now();
         loop {
             match child.try_wait() {
@@ -1010,20 +1053,21 @@ pub fn run(ctx: &mut Ctx) {
     let iters = tier.pick(20_000u64, 400_000u64);
     for fl in [SDi::NAME, SUn::NAME] {
         let re = if fl == SDi::NAME { reentrant_reads::<SDi>() } else { reentrant_reads::<SUn>() };
-        ctx.stats.class_n(&format!("lock-discipline.call-shapes-probed.{}", fl), (call_shapes(3).len() * inits().len()) as u64);
-        ctx.stats.evals_n((call_shapes(3).len() * inits().len()) as u64);
+        let probed = ((accessors::<SDi>().len() * 3 + 30) * inits().len()) as u64;
+        ctx.stats.class_n(&format!("lock-discipline.calls-probed.{}", fl), probed);
+        ctx.stats.evals_n(probed);
         for (idx, (reader, writer)) in shapes_free.iter().enumerate() {
             wd.tick();
             ctx.stats.eval();
             ctx.stats.class(&format!("free-running.pairs.{}", fl));
             ctx.stats.nontrivial(&(fl, "free", reader, writer));
             let mut stalls = 0;
-            let mut code = run_child(fl, idx, iters);
+            let mut code = run_child(fl, idx, iters, None);
             if code == Some(3) {
                 // confirm: three out of three fresh attempts
                 stalls = 1;
                 for _ in 0..2 {
-                    code = run_child(fl, idx, iters);
+                    code = run_child(fl, idx, iters, None);
                     if code == Some(3) {
                         stalls += 1;
                     }
@@ -1051,11 +1095,42 @@ pub fn run(ctx: &mut Ctx) {
                 (c, s) => ctx.inconclusive.push(format!("free-running pair {} #{}: exit {:?}, {} stalls of 3 (not reproducible; not counted as a violation)", fl, idx, c, s)),
             }
         }
-        if !re.is_empty() && !ctx.stats.findings.keys().any(|k| k.starts_with(fl) && k.contains("free-running.deadlock")) {
-            ctx.inconclusive.push(format!("{}: re-entrant read acquisitions detected single-threaded ({:?}) — std::sync::RwLock may deadlock there when a writer queues in between — but no stall was reproduced with real threads", fl, re.iter().map(|x| x.0.name()).collect::<Vec<_>>()));
+        // focused confirmation of every re-entrant read site: that accessor alone against each writer loop
+        for (name, what) in &re {
+            if accessors::<SDi>().iter().all(|a| a.0 != *name) {
+                continue;
+            }
+            let mut confirmed = false;
+            'shapes: for (idx, (reader, writer)) in shapes_free.iter().enumerate() {
+                wd.tick();
+                let mut stalls = 0;
+                for _ in 0..3 {
+                    if run_child(fl, idx, iters * 20, Some(name)) == Some(3) {
+                        stalls += 1;
+                    } else {
+                        break;
+                    }
+                }
+                if stalls == 3 {
+                    confirmed = true;
+                    let sc = Scenario { n: 3, init: vec![(1, 2, 9)], threads: vec![vec![*reader], vec![writer.0, writer.1]] };
+                    ctx.stats.report(Finding {
+                        property: "C17".into(),
+                        flavour: fl.into(),
+                        clause: "free-running.deadlock".into(),
+                        signature: format!("{} | {}(n{}) (looping) || {} (looping, real threads) | free-running.deadlock", fl, name, reader.operands()[0], canon_calls(&[vec![writer.0, writer.1]])),
+                        case: json!({"kind": "free-running", "flavour": fl, "shape_index": idx, "accessor": name, "writer": [writer.0, writer.1], "iterations": iters * 20}),
+                        detail: format!("{}: {}; with real threads no progress counter moved for 6 s in 3 of 3 fresh processes", name, what),
+                    });
+                    break 'shapes;
+                }
+            }
+            if !confirmed {
+                ctx.inconclusive.push(format!("{}: `{}` takes a read lock it already holds ({}) — std::sync::RwLock may deadlock there when a writer queues in between — but no stall was reproduced with real threads", fl, name, what));
+            }
         }
         if !re.is_empty() {
-            ctx.stats.extra.insert(format!("reentrant_read_sites.{}", fl), json!(re.iter().map(|x| format!("{:?}: {}", x.0, x.1)).collect::<Vec<_>>()));
+            ctx.stats.extra.insert(format!("reentrant_read_sites.{}", fl), json!(re.iter().map(|x| format!("{}: {}", x.0, x.1)).collect::<Vec<_>>()));
         }
     }
     ctx.stats.sample_kind("free-running", 1, || json!({"free_running_pair": {"reader": shapes_free[0].0, "writer_loop": [shapes_free[0].1 .0, shapes_free[0].1 .1], "iterations_per_thread": iters}}));
